@@ -23,6 +23,7 @@ import r31_reject
 import r32_virial
 import r33_axispair
 import r34_weights
+import r35_residual
 import r06_validate
 import r07_cache
 import r08_toporder
@@ -150,6 +151,10 @@ R31_SCOPES = {
 
 def r31(ctx, prop):
     return r31_reject.run(ctx.F(), R31_SCOPES[prop])
+
+
+def r35(ctx, prop):
+    return r35_residual.run(ctx.F())
 
 
 def r34(ctx, prop):
@@ -350,7 +355,7 @@ PROPERTY_RULES = {
     "C05": [r4, r5, r16, r25, r24, r26, r31],
     "C06": [r4, r1_all, r21, r25, r24, r26, r28, r31],
     "C07": [r5, r4, r25, r24, r26, r31],
-    "C18": [r4, r16, r25, r24, r26],
+    "C18": [r4, r16, r25, r24, r26, r35],
 }
 
 
